@@ -17,7 +17,9 @@ from checks.c01_parse_tree_validity import build_parser, concrete_tokens, st_inp
 ID = "C03"
 RULE = ("grammar skeletons with unrestricted back references (direct, indirect and hidden cycles behind 1-3 nullable "
         "symbols, cycles unreachable from the start symbol) and extra empty alternatives; for skeletons with <=4 "
-        "non-terminals EVERY permutation of the names A..D is constructed (<=24), for 5 a sample of 30; both "
+        "non-terminals EVERY permutation of the names is constructed (<=24), for 5 a sample of 30; the names come from 6 "
+        "sets (A..E, one-letter names mixed with longer names containing those letters, primed names), punctuation "
+        "terminals optionally named '%', '{}', '%s', '\\\\', \"'\" through synonyms; both "
         "smart_factorization settings; 3-6 inputs of <=8 tokens per accepted grammar parsed under the stack-depth "
         "monitor. Non-trivial = skeleton has a nullable symbol immediately left of a non-terminal in some alternative; "
         "distinct by (skeleton, naming).")
@@ -27,11 +29,19 @@ ASSUMPTIONS = [
 ]
 
 NAMES = ["A", "B", "C", "D", "E"]
+# other sets of non-terminal names (case["nameset"]): one-letter names next to longer names that contain those letters,
+# primed names; the verdict may depend neither on the spelling nor on the order of the names
+NAME_SETS = [NAMES, ["E", "BASE", "T", "ITEM", "S"], ["S", "ARGS", "T", "TS", "A"], ["T", "ITEM", "E", "TERM", "M"],
+             ["E'", "E", "T'", "T", "F"], ["e", "E", "Ee", "eE", "EE"]]
+# terminal names given to the punctuation tokens through 'synonyms' when case["odd_terms"]: a terminal name is a label,
+# any string may be used (here: characters that are special in %-, {}- and regex-formatting)
+ODD_TERMS = {"PLUS": "%", "COMMA": "{}", "SEMI": "%s", "LPAR": "\\", "RPAR": "'"}
 
 
-def concretise(g, perm, tok_names):
+def concretise(g, perm, tok_names, nameset=0):
     nts = sorted(g["prods"], key=lambda s: int(s[1:]))
-    mp = {a: NAMES[perm[i]] for i, a in enumerate(nts)}
+    pool = NAME_SETS[nameset % len(NAME_SETS)]
+    mp = {a: pool[perm[i]] for i, a in enumerate(nts)}
     for t in g["terms"]:
         mp[t] = tok_names[t]
     return {"prods": {mp[a]: [[mp[s] for s in alt] for alt in alts] for a, alts in g["prods"].items()},
@@ -41,7 +51,11 @@ def concretise(g, perm, tok_names):
 def evaluate(case):
     import ak.llparser as L
     g = case["g"]
-    tokcfg, names = gk.tok_config(case["syn"], case["kw"])
+    tokcfg, names = gk.tok_config(case["syn"] or bool(case.get("odd_terms")), case["kw"])
+    if case.get("odd_terms"):
+        for grp, odd in ODD_TERMS.items():
+            tokcfg["synonyms"][grp] = odd
+            names[grp] = odd
     Ga = gk.Grammar(g["prods"], g["start"], set(g["terms"]))
     cyc = Ga.left_recursion_cycle()
     nl = Ga.nullable()
@@ -53,10 +67,13 @@ def evaluate(case):
              for i in range(len(alt) - 1))
     if nt:
         classes.add("nullable_left_of_nonterminal")
+    classes.add("nameset_%d" % (case.get("nameset", 0) % len(NAME_SETS)))
+    if case.get("odd_terms"):
+        classes.add("odd_terminal_names")
     evals = 0
     outcomes = {}
     for perm in perms:
-        conc = concretise(g, perm, names)
+        conc = concretise(g, perm, names, case.get("nameset", 0))
         conc["all_names"] = names
         for smart in (True, False):
             evals += 1
@@ -107,7 +124,8 @@ def evaluate(case):
             break
     if len(set(outcomes.values())) > 1:
         classes.add("verdict_depends_on_naming")
-    key = [g["prods"], g["start"], case["perms"] if case["perms"] != "all" else n]
+    key = [g["prods"], g["start"], case["perms"] if case["perms"] != "all" else n, case.get("nameset", 0),
+           bool(case.get("odd_terms"))]
     return Outcome(nt, sorted(classes), f[:4], key=key, evals=evals,
                    sample={"skeleton": g["prods"], "start": g["start"], "namings": len(perms), "cyclic": cyc})
 
@@ -167,7 +185,8 @@ def st_case(draw):
         perms = "all"
     else:
         perms = [list(p) for p in draw(st.lists(st.permutations(list(range(n))), min_size=30, max_size=30))]
-    return {"g": g, "perms": perms, "syn": draw(st.booleans()), "kw": False, "inputs": inputs}
+    return {"g": g, "perms": perms, "syn": draw(st.booleans()), "kw": False, "inputs": inputs,
+            "nameset": draw(st.sampled_from([0, 0, 1, 2, 3, 4, 5])), "odd_terms": draw(st.integers(0, 3)) == 0}
 
 
 def regression_cases():
